@@ -263,6 +263,146 @@ Proof.
   - right. rewrite E in Hst. inversion Hst; subst. exists pre, tok, rest, st1. repeat split; assumption.
 Qed.
 
+(** * Verbatim delivery (class [sink])
+
+    After the escape the positional counter is corrected to [sink_index pc]: the last positional
+    when the command has a [last] positional or [allow_missing_positional], the current one
+    otherwise.  [sink_arg pc = Some a] says that this positional is multi-valued and has no value
+    terminator (and that the low-index-multiple look-ahead is not in play): then it absorbs
+    every token that follows. *)
+Definition low_index_mults_any : bool :=
+  existsb (fun a => a_is_multiple a && negb (positional_count c =? opt_default 0 (a_index a))) (positionals c)
+  && match last (map Some (positionals c)) None with Some p => negb (a_last p) | None => false end.
+
+Definition sink_index (pc : N) : N :=
+  if is_set s_allow_missing_pos c || existsb a_last (c_args c) then positional_count c else pc.
+
+Definition sink_arg (pc : N) : option arg :=
+  if low_index_mults_any then None else
+  match get_pos c (sink_index pc) with
+  | Some a => if a_multiple_values a && negb (is_some (a_term a)) then Some a else None
+  | None => None
+  end.
+
+Lemma sink_index_idem pc : sink_index (sink_index pc) = sink_index pc.
+Proof. unfold sink_index. destruct (_ || _); reflexivity. Qed.
+
+Lemma pos_correct_sink pc vaf rest :
+  low_index_mults_any = false -> pos_correct pc vaf rest = ROk (sink_index pc).
+Proof.
+  intros H. unfold pos_correct, sink_index. unfold low_index_mults_any in H. cbv zeta.
+  rewrite <- andb_assoc, H, andb_false_r. cbn [andb]. reflexivity.
+Qed.
+
+Lemma sink_arg_spec pc a : sink_arg pc = Some a ->
+  low_index_mults_any = false /\ get_pos c (sink_index pc) = Some a /\
+  a_multiple_values a = true /\ a_term a = None.
+Proof.
+  unfold sink_arg. destruct low_index_mults_any; [discriminate|].
+  destruct (get_pos c (sink_index pc)) as [a'|]; [|discriminate].
+  destruct (a_multiple_values a') eqn:Em; [|discriminate].
+  destruct (a_term a') eqn:Et; [discriminate|]. cbn. intros E. injection E as <-. auto.
+Qed.
+
+Lemma sink_arg_stable pc a : sink_arg pc = Some a -> sink_arg (sink_index pc) = Some a.
+Proof. unfold sink_arg. rewrite sink_index_idem. auto. Qed.
+
+(** values and trailing index of the occurrence being collected *)
+Definition pend_raw (m : matcher) : list bytes :=
+  match mt_pending m with Some p => p_raw p | None => [] end.
+Definition pend_ti (m : matcher) : N :=
+  match mt_pending m with
+  | Some p => match p_trailing_idx p with Some t => t | None => N.of_nat (length (p_raw p)) end
+  | None => 0
+  end.
+
+Lemma push_spec m i idn tok m1 :
+  pending_values_push m i idn true (Some tok) = Some m1 ->
+  exists p, mt_pending m1 = Some p /\ beq (p_id p) i = true /\
+            p_raw p = pend_raw m ++ [tok] /\ p_trailing_idx p = Some (pend_ti m) /\
+            mt_args m1 = mt_args m /\ mt_sub m1 = mt_sub m.
+Proof.
+  unfold pending_values_push, pend_raw, pend_ti.
+  destruct (mt_pending m) as [p|].
+  - destruct (beq (p_id p) i) eqn:Eb; cbn [negb]; [|discriminate].
+    destruct (_ && _); [discriminate|]. intros E. injection E as <-.
+    eexists. split; [reflexivity|]. cbn. repeat split; try assumption.
+    destruct (p_trailing_idx p); reflexivity.
+  - cbn. rewrite beq_refl. cbn [negb].
+    destruct (_ && _); [discriminate|]. intros E. injection E as <-.
+    eexists. split; [reflexivity|]. cbn. rewrite beq_refl. repeat split.
+Qed.
+
+(** one step at the sink *)
+Lemma tstep_sink tok rest ls st ls' st' a :
+  sink_arg (l_pos ls) = Some a -> tstep tok rest ls st ls' st' ->
+  exists st0 p, flush_for a st = ROk st0 /\
+    l_pos ls' = sink_index (l_pos ls) /\
+    mt_pending (mt st') = Some p /\ beq (p_id p) (a_id a) = true /\
+    p_raw p = pend_raw (mt st0) ++ [tok] /\ p_trailing_idx p = Some (pend_ti (mt st0)) /\
+    mt_args (mt st') = mt_args (mt st0) /\ mt_sub (mt st') = mt_sub (mt st0) /\
+    cur_idx st' = cur_idx st0.
+Proof.
+  intros Hs Ht. destruct (sink_arg_spec _ _ Hs) as (Hl & Hg & Hm & Hterm).
+  destruct Ht as [pc' a' st1 Hpc Hg' Hf Hct|pc' a' st1 m1 Hpc Hg' Hf Hct Hp];
+    rewrite (pos_correct_sink _ _ _ Hl) in Hpc; injection Hpc as <-;
+    rewrite Hg in Hg'; injection Hg' as <-.
+  - unfold check_terminator in Hct. rewrite Hterm in Hct. discriminate.
+  - destruct (push_spec _ _ _ _ _ Hp) as (p & E1 & E2 & E3 & E4 & E5 & E6).
+    exists st1, p. unfold a_is_multiple. rewrite Hm. cbn [orb negb l_pos].
+    repeat split; assumption.
+Qed.
+
+(** T2: every token after the escape reaches the pending occurrence of the sink positional,
+    byte for byte and in order; nothing else in the matcher changes *)
+Theorem tail_verbatim : forall tail suffix tok ls st ls' st' a,
+  sink_arg (l_pos ls) = Some a ->
+  truns suffix (tok :: tail) ls st ls' st' ->
+  exists st0 p, flush_for a st = ROk st0 /\
+    mt_pending (mt st') = Some p /\ beq (p_id p) (a_id a) = true /\
+    p_raw p = pend_raw (mt st0) ++ tok :: tail /\
+    p_trailing_idx p = Some (pend_ti (mt st0)) /\
+    mt_args (mt st') = mt_args (mt st0) /\ mt_sub (mt st') = mt_sub (mt st0) /\
+    cur_idx st' = cur_idx st0.
+Proof.
+  induction tail as [|t2 tail IH] using rev_ind; intros suffix tok ls st ls' st' a Hs Hr.
+  - inversion Hr as [|? ? ? ? ls1 st1 ? ? Hst Hrest]; subst. inversion Hrest; subst.
+    destruct (tstep_sink _ _ _ _ _ _ _ Hs Hst) as (st0 & p & H1 & _ & H2 & H3 & H4 & H5 & H6 & H7 & H8).
+    exists st0, p. repeat split; assumption.
+  - (* split the run: all but the last token, then one step *)
+    assert (Hsplit : exists lsm stm, truns (t2 :: suffix) (tok :: tail) ls st lsm stm /\
+                                     tstep t2 suffix lsm stm ls' st' /\
+                                     sink_arg (l_pos lsm) = Some a).
+    { clear IH. revert tok ls st Hs Hr.
+      induction tail as [|t3 tail IHt]; intros tok ls st Hs Hr.
+      - cbn in Hr. inversion Hr as [|? ? ? ? ls1 st1 ? ? Hst Hrest]; subst.
+        inversion Hrest as [|? ? ? ? ls2 st2 ? ? Hst2 Hrest2]; subst. inversion Hrest2; subst.
+        exists ls1, st1. split; [|split].
+        + econstructor; [exact Hst|constructor].
+        + exact Hst2.
+        + destruct (tstep_sink _ _ _ _ _ _ _ Hs Hst) as (? & ? & _ & Hp & _). rewrite Hp.
+          apply sink_arg_stable. exact Hs.
+      - cbn in Hr. inversion Hr as [|? ? ? ? ls1 st1 ? ? Hst Hrest]; subst.
+        assert (Hs1 : sink_arg (l_pos ls1) = Some a).
+        { destruct (tstep_sink _ _ _ _ _ _ _ Hs Hst) as (? & ? & _ & Hp & _). rewrite Hp.
+          apply sink_arg_stable. exact Hs. }
+        destruct (IHt t3 ls1 st1 Hs1 Hrest) as (lsm & stm & Hr' & Hst' & Hsm).
+        exists lsm, stm. split; [|split; assumption].
+        econstructor; [|exact Hr']. rewrite <- app_assoc in Hst. exact Hst. }
+    destruct Hsplit as (lsm & stm & Hr1 & Hst & Hsm).
+    destruct (IH _ _ _ _ _ _ _ Hs Hr1) as (st0 & p & H1 & H2 & H3 & H4 & H5 & H6 & H7 & H8).
+    destruct (tstep_sink _ _ _ _ _ _ _ Hsm Hst) as (stf & p' & F1 & _ & F2 & F3 & F4 & F5 & F6 & F7 & F8).
+    (* no flush in the last step: the pending occurrence already belongs to [a] *)
+    assert (stf = stm).
+    { unfold flush_for, pending_arg_id in F1. rewrite H2 in F1. cbn [opt_map] in F1. rewrite H3 in F1.
+      destruct (sink_arg_spec _ _ Hs) as (_ & _ & Hm & _). rewrite Hm in F1. cbn in F1.
+      injection F1 as <-. reflexivity. }
+    subst stf. exists st0, p'. split; [exact H1|]. split; [exact F2|]. split; [exact F3|].
+    unfold pend_raw, pend_ti in F4, F5. rewrite H2 in F4, F5. rewrite H5 in F5.
+    split; [rewrite F4, H4, <- app_assoc; reflexivity|].
+    split; [exact F5|]. rewrite F6, F7, F8. auto.
+Qed.
+
 (** * The iteration on [--] *)
 Definition dashdash : bytes := [DASH; DASH].
 
